@@ -81,3 +81,23 @@ Proof.
     vm_compute. reflexivity.
   - vm_compute. repeat split; reflexivity.
 Qed.
+
+(* free text with the other layouts' separators: a tab-separated BLAST row whose title holds commas, blanks, '#' and '--' is a
+   renderable row (the hypotheses of C11_read_rendered_rows / C11_read_outfmt_file hold), and so is a comma-separated row whose
+   title holds a tab; the Infernal description keeps tabs and runs of blanks (C11_split_ws_render applies) *)
+Definition ex3_free_hs : list hdr :=
+  hs_of (headers_from false Blast (split_ws (bs "qseqid sseqid stitle qstart qend sstart send evalue bitscore"%bs))).
+Definition ex3_free_row (title : str) : list str :=
+  [bs "q1"%bs; bs "chr2"%bs; title; bs "5"%bs; bs "80"%bs; bs "2075"%bs; bs "2000"%bs; bs "0.001"%bs; bs "40.1"%bs].
+Definition ex3_title_tab : str := bs "Homo sapiens, chromosome 1; alt #1 -- # Fields: x"%bs.
+Definition ex3_title_comma : str := "a"%byte :: x09 :: bs "b  c"%bs.
+Lemma witness_freetext :
+  row_ok Blast x09 (ex3_free_row ex3_title_tab) = true /\ row_ok Blast ","%byte (ex3_free_row ex3_title_comma) = true /\
+  match row_feature Blast None ex3_free_hs (ex3_free_row ex3_title_tab) with
+  | Ok f => assoc (bs "stitle"%bs) (f_fmt f) = Some (AStr ex3_title_tab) /\ (f_start f, f_stop f, f_strand f) = (1999, 2075, bs "-"%bs)
+  | Err _ => False
+  end /\
+  locs (snd (read_content Blast (Some ","%byte) (Some (bs "qseqid sseqid stitle qstart qend sstart send evalue bitscore"%bs)) None false
+               (unlines [join ","%byte (ex3_free_row ex3_title_comma)]))) = Some [(1999, 2075, bs "-"%bs)] /\
+  edge_ok ("a"%byte :: x09 :: x09 :: bs "b  -- #c"%bs) = true.
+Proof. repeat split; vm_compute; reflexivity. Qed.
